@@ -44,7 +44,8 @@ DC_ALGS = ["rsa_pss_pss_sha256", "ed25519", "ecdsa_secp256r1_sha256",
 PROBES = SITES + ["flip", "empty", "trunc", "extend", "degenerate",
                   "other_scheme",
                   "other_transcript", "wrong_key", "omitted", "honest_ok",
-                  "pha_finished", "srp_no_suite", "dc_class_0",
+                  "pha_finished", "srp_no_suite", "unoffered_scheme",
+                  "dc_class_0",
                   "dc_class_1", "dc_class_2", "dc_class_3"]
 COMPONENTS_REAL = ["tlslite verification code of both roles, key classes"]
 COMPONENTS_STUB = ["socket", "os.urandom", "clock", "byzantine peer"]
@@ -285,6 +286,18 @@ def run(job, streams=None):
             return [msg]
         rules.append(rule)
         probes["pha_finished"] = 1
+    elif site == "ske_sig" and ver == (3, 3) and \
+            sc.get("skey") in ("rsa", "ecdsa", "ecdsa384", "dsa") and \
+            ch.draw(5, "c.unoffered") == 1:
+        # a server that does not care about signature_algorithms: it really
+        # signs (consistently) with a hash the client never offered
+        cls = "other_scheme"
+        for k_ in ("rsaSigHashes", "ecdsaSigHashes", "dsaSigHashes"):
+            sc2["cset"][k_] = ["sha256"]
+        liar_hash = ["sha1", "sha384", "sha224"][ch.draw(3, "c.liarhash")]
+        sc2["_liar_hash"] = liar_hash
+        fired.append("ske_signed_with_unoffered_%s" % liar_hash)
+        probes["unoffered_scheme"] = 1
     elif site in ("ske_sig", "srv_cv13", "cli_cv12", "cli_cv13", "pha"):
         cls = SIGCLS[ch.draw(len(SIGCLS), "c.cls")]
         clsname = "ServerKeyExchange" if site == "ske_sig" else \
@@ -462,6 +475,11 @@ def run(job, streams=None):
 
     # ---------------- faulted run
     sim, pair, peer, vic, ip = build(ch, rules, sc2)
+    if sc2.get("_liar_hash"):
+        lh = sc2["_liar_hash"]
+        peer.conn._pickServerKeyExchangeSig = \
+            lambda settings, clientHello, certList=None, private_key=None, \
+            version=(3, 3), check_alt=True: (lh, certList, private_key)
     if sc2.get("_wrong_key"):
         role, other = sc2["_wrong_key"]
         wk = creds.load("server", other)[1]
